@@ -87,7 +87,7 @@ theorem fkAfter_frame {ic : Bool} {old new : Bytes} {id : Id} {s s' : State} (hf
 
 /-- the entity tables after a successful `A.Create` -/
 theorem createA_entity {s s' : State} {id : Id} {v : ValsA} (h : createA s id v = .ok s') :
-    s'.a = s.a.insert id ⟨v.name, v.alias, setOf v.roles, v.owner, v.dep, v.boss, none, none⟩ ∧ s'.b = s.b := by
+    s'.a = s.a.insert id ⟨v.name, v.alias, setOf v.roles, v.owner, v.dep, v.boss, v.chief, none, none⟩ ∧ s'.b = s.b := by
   unfold createA at h
   split at h
   · cases h
@@ -250,6 +250,7 @@ theorem bossAfter_create_ok_iff {s : State} {new : Bytes} :
 /-- what decides whether `A.Create id v` is accepted: the *other* entities only (a `boss` may also
     be the entity itself: it exists by the time the fk constraint looks) -/
 def AcceptableA (s : State) (id : Id) (v : ValsA) : Prop :=
+  (v.chief.getD [] = [] ∨ v.chief.getD [] = id ∨ s.aEx (v.chief.getD []) = true) ∧
   (v.boss.getD [] = [] ∨ v.boss.getD [] = id ∨ s.aEx (v.boss.getD []) = true) ∧
   v.name ≠ [] ∧ ¬ HeldByOther (fun (e : EntA) => e.name) s.a id v.name ∧
   (v.alias.getD [] = [] ∨ ¬ HeldByOther (fun (e : EntA) => e.alias.getD []) s.a id (v.alias.getD [])) ∧
@@ -264,34 +265,46 @@ theorem createA_accepts_iff {s : State} {id : Id} {v : ValsA} (hi : Inv s) (hid 
     cases hgl : s.g.fwd.lookup id with
     | none => rfl
     | some l => have := hi.g.fwdDom id l hgl; simp [State.aEx, hna] at this
-  have hg1 : LinkInv s.g ({ s with hasA := true, a := s.a.insert id ⟨v.name, v.alias, setOf v.roles, v.owner, v.dep, v.boss, none, none⟩ } : State).aEx ({ s with hasA := true, a := s.a.insert id ⟨v.name, v.alias, setOf v.roles, v.owner, v.dep, v.boss, none, none⟩ } : State).bEx :=
+  have hg1 : LinkInv s.g ({ s with hasA := true, a := s.a.insert id ⟨v.name, v.alias, setOf v.roles, v.owner, v.dep, v.boss, v.chief, none, none⟩ } : State).aEx ({ s with hasA := true, a := s.a.insert id ⟨v.name, v.alias, setOf v.roles, v.owner, v.dep, v.boss, v.chief, none, none⟩ } : State).bEx :=
     hi.g.mono (aEx_insert_mono rfl) (fun _ h => h)
   have hlinks := LinkPair.setLinks_fresh_ok_iff (req := v.groups) hg1 (aEx_insert_self rfl) hg
   unfold createA AcceptableA
   simp only [hid, if_false, hna, Option.isSome_none, Bool.false_eq_true, bind, Except.bind, setGroups, pure, Except.pure]
-  cases hsl : s.g.setLinks ({ s with hasA := true, a := s.a.insert id ⟨v.name, v.alias, setOf v.roles, v.owner, v.dep, v.boss, none, none⟩ } : State).bEx
+  cases hsl : s.g.setLinks ({ s with hasA := true, a := s.a.insert id ⟨v.name, v.alias, setOf v.roles, v.owner, v.dep, v.boss, v.chief, none, none⟩ } : State).bEx
       id v.groups with
   | error x =>
     have hno : ¬ ∀ k, k ∈ v.groups → s.bEx k = true := by
       intro h; obtain ⟨p', hp'⟩ := hlinks.2 h; rw [hsl] at hp'; cases hp'
     simp only [false_iff, reduceCtorEq, exists_false]
-    intro h; exact hno h.2.2.2.2.2.1
+    intro h; exact hno h.2.2.2.2.2.2.1
   | ok g' =>
     have hgr : ∀ k, k ∈ v.groups → s.bEx k = true := hlinks.1 ⟨g', hsl⟩
-    simp only [afterUpdateA, Map.lookup_insert, if_true, evName, evAlias, evRoles, evOwner, evDep, evBoss, Captured.none, bind,
+    simp only [afterUpdateA, Map.lookup_insert, if_true, evName, evAlias, evRoles, evOwner, evDep, evBoss, evChief, Captured.none, bind,
       Except.bind]
-    have hbx : ({ s with hasA := true, a := s.a.insert id ⟨v.name, v.alias, setOf v.roles, v.owner, v.dep, v.boss, none, none⟩, g := g' } : State).aEx (v.boss.getD []) = true ↔
-        (v.boss.getD [] = id ∨ s.aEx (v.boss.getD []) = true) := by
+    have hbx : ∀ w : Bytes, ({ s with hasA := true, a := s.a.insert id ⟨v.name, v.alias, setOf v.roles, v.owner, v.dep, v.boss, v.chief, none, none⟩, g := g' } : State).aEx w = true ↔ (w = id ∨ s.aEx w = true) := by
+      intro w
       simp only [State.aEx, Map.lookup_insert]
-      by_cases hbi : v.boss.getD [] = id
+      by_cases hbi : w = id
       · simp [hbi]
       · simp [hbi]
-    cases hbo : bossAfter true [] (v.boss.getD []) ({ s with hasA := true, a := s.a.insert id ⟨v.name, v.alias, setOf v.roles, v.owner, v.dep, v.boss, none, none⟩, g := g' } : State) with
+    cases hch : bossAfter true [] (v.chief.getD []) ({ s with hasA := true, a := s.a.insert id ⟨v.name, v.alias, setOf v.roles, v.owner, v.dep, v.boss, v.chief, none, none⟩, g := g' } : State) with
     | error x =>
       simp only [false_iff, reduceCtorEq, exists_false]
       intro h
-      have : bossAfter true [] (v.boss.getD []) ({ s with hasA := true, a := s.a.insert id ⟨v.name, v.alias, setOf v.roles, v.owner, v.dep, v.boss, none, none⟩, g := g' } : State) = .ok () := by
+      have : bossAfter true [] (v.chief.getD []) ({ s with hasA := true, a := s.a.insert id ⟨v.name, v.alias, setOf v.roles, v.owner, v.dep, v.boss, v.chief, none, none⟩, g := g' } : State) = .ok () := by
         rw [bossAfter_create_ok_iff, hbx]; exact h.1
+      rw [hch] at this; cases this
+    | ok u0 =>
+    have hcacc : v.chief.getD [] = [] ∨ v.chief.getD [] = id ∨ s.aEx (v.chief.getD []) = true := by
+      have := bossAfter_create_ok_iff.1 hch
+      rw [hbx] at this; exact this
+    simp only
+    cases hbo : bossAfter true [] (v.boss.getD []) ({ s with hasA := true, a := s.a.insert id ⟨v.name, v.alias, setOf v.roles, v.owner, v.dep, v.boss, v.chief, none, none⟩, g := g' } : State) with
+    | error x =>
+      simp only [false_iff, reduceCtorEq, exists_false]
+      intro h
+      have : bossAfter true [] (v.boss.getD []) ({ s with hasA := true, a := s.a.insert id ⟨v.name, v.alias, setOf v.roles, v.owner, v.dep, v.boss, v.chief, none, none⟩, g := g' } : State) = .ok () := by
+        rw [bossAfter_create_ok_iff, hbx]; exact h.2.1
       rw [hbo] at this; cases this
     | ok u =>
     have hbacc : v.boss.getD [] = [] ∨ v.boss.getD [] = id ∨ s.aEx (v.boss.getD []) = true := by
@@ -308,7 +321,7 @@ theorem createA_accepts_iff {s : State} {id : Id} {v : ValsA} (hi : Inv s) (hid 
       have : ¬ ((v.name = [] ∧ false = true) ∨ (v.name ≠ [] ∧ ¬ HeldByOther (fun (e : EntA) => e.name) s.a id v.name)) := by
         intro h; obtain ⟨i, hi'⟩ := hN.2 h; rw [hun] at hi'; cases hi'
       simp only [false_iff, reduceCtorEq, exists_false]
-      intro h; exact this (Or.inr ⟨h.2.1, h.2.2.1⟩)
+      intro h; exact this (Or.inr ⟨h.2.2.1, h.2.2.2.1⟩)
     | ok un =>
       have hn' := hN.1 ⟨un, hun⟩
       simp only
@@ -320,7 +333,7 @@ theorem createA_accepts_iff {s : State} {id : Id} {v : ValsA} (hi : Inv s) (hid 
         simp only [false_iff, reduceCtorEq, exists_false]
         intro h
         apply this
-        rcases h.2.2.2.1 with h1 | h1
+        rcases h.2.2.2.2.1 with h1 | h1
         · exact Or.inl ⟨h1, rfl⟩
         · by_cases hz : v.alias.getD [] = []
           · exact Or.inl ⟨hz, rfl⟩
@@ -333,7 +346,7 @@ theorem createA_accepts_iff {s : State} {id : Id} {v : ValsA} (hi : Inv s) (hid 
           have : ¬ [] ∉ setOf v.roles := by
             intro h; obtain ⟨i, hi'⟩ := hR.2 h; rw [hsr] at hi'; cases hi'
           simp only [false_iff, reduceCtorEq, exists_false]
-          intro h; exact this h.2.2.2.2.1
+          intro h; exact this h.2.2.2.2.2.1
         | ok sr =>
           have hr' := hR.1 ⟨sr, hsr⟩
           simp only
@@ -349,14 +362,14 @@ theorem createA_accepts_iff {s : State} {id : Id} {v : ValsA} (hi : Inv s) (hid 
             · rcases ha' with ⟨h, _⟩ | ⟨_, h⟩
               · exact Or.inl h
               · exact Or.inr h
-          cases hfk : fkAfter true [] (v.owner.getD []) id ({ s with hasA := true, a := s.a.insert id ⟨v.name, v.alias, setOf v.roles, v.owner, v.dep, v.boss, none, none⟩, g := g', uName := un, uAlias := ua, sRoles := sr } : State) with
+          cases hfk : fkAfter true [] (v.owner.getD []) id ({ s with hasA := true, a := s.a.insert id ⟨v.name, v.alias, setOf v.roles, v.owner, v.dep, v.boss, v.chief, none, none⟩, g := g', uName := un, uAlias := ua, sRoles := sr } : State) with
           | error x =>
             have : ¬ (v.owner.getD [] = [] ∨ s.bEx (v.owner.getD []) = true) := by
               intro h
-              obtain ⟨t, ht⟩ := (fkAfter_create_ok_iff (id := id) (s := ({ s with hasA := true, a := s.a.insert id ⟨v.name, v.alias, setOf v.roles, v.owner, v.dep, v.boss, none, none⟩, g := g', uName := un, uAlias := ua, sRoles := sr } : State))).2 h
+              obtain ⟨t, ht⟩ := (fkAfter_create_ok_iff (id := id) (s := ({ s with hasA := true, a := s.a.insert id ⟨v.name, v.alias, setOf v.roles, v.owner, v.dep, v.boss, v.chief, none, none⟩, g := g', uName := un, uAlias := ua, sRoles := sr } : State))).2 h
               rw [hfk] at ht; cases ht
             simp only [false_iff, reduceCtorEq, exists_false]
-            intro h; exact this h.2.2.2.2.2.2.1
+            intro h; exact this h.2.2.2.2.2.2.2.1
           | ok s1 =>
             have ho := (fkAfter_create_ok_iff (id := id)).1 ⟨s1, hfk⟩
             have hb0 := fkAfter_create_b hfk
@@ -364,8 +377,8 @@ theorem createA_accepts_iff {s : State} {id : Id} {v : ValsA} (hi : Inv s) (hid 
             simp only
             rw [depAfter_create_ok_iff, hb1]
             constructor
-            · intro hd; exact ⟨hbacc, base.1, base.2.1, base.2.2, hr', hgr, ho, hd⟩
-            · intro h; exact h.2.2.2.2.2.2.2
+            · intro hd; exact ⟨hcacc, hbacc, base.1, base.2.1, base.2.2, hr', hgr, ho, hd⟩
+            · intro h; exact h.2.2.2.2.2.2.2.2
 
 theorem acceptableA_congr {s t : State} {id : Id} {v : ValsA} (ha : ∀ j, t.a.lookup j = s.a.lookup j)
     (hb : ∀ j, t.b.lookup j = s.b.lookup j) : AcceptableA t id v ↔ AcceptableA s id v := by
@@ -396,7 +409,7 @@ theorem boss_cascade_removes {s s' : State} {id j : Id} (hi : Inv s) (h : delete
     | some e' =>
       have h1 := p.sub j e' hl
       rw [hj] at h1; cases h1
-      have := p.boss j e hl (by rw [hk]; exact hne) (by simp)
+      have := p.boss.boss j e hl (by rw [hk]; exact hne) (by simp)
       rw [hk] at this
       simp [State.aEx, hgone] at this
   induction hr with
